@@ -21,18 +21,20 @@ def coq_mismatches_par(ctx, name, header, cases, fns, shard, workers=4):
 LEVEL = "proof"
 META = {
     "category": "proof",
-    "text": "Coq theorems over an abstract machine whose program is an arbitrary (possibly non-terminating) step function on an opaque state with nested Starlark and host frames, the interpreter's loop head (Steps++, Steps >= maxSteps -> OnMaxSteps/Cancel, cancelReason test, dispatch) and Thread.Cancel (compare-and-swap) / Uncancel / the one-time maxSteps initialisation modelled as in the code, and an adversary that cancels/uncancels between any two micro-steps: with limit N >= 1 fewer than N instructions are ever dispatched over all nested calls and all schedules and a run that reaches its N-th loop head cannot succeed (ends with the cancellation error when host code propagates errors); once cancelled no instruction is dispatched beyond the single one whose cancellation test had already passed; the reason reported is the first Cancel since the last Uncancel over every history; an execution started while cancelled stops at its first loop head; step counts are independent of the limit and of the counter's start; every execution under a finite limit terminates if built-ins do. Tied to /repo on every run: real programs (terminating and not) are measured, run under every limit N, with Cancel/Uncancel scripts injected from inside each built-in call (same or another goroutine), scripted Cancel/Uncancel/re-execute lives and asynchronous cancellation; model and specification are evaluated in Coq on a sample of those runs and a Go oracle checks all of them.",
+    "text": "Coq theorems over an abstract machine whose program is an arbitrary (possibly non-terminating) step function on an opaque state with nested Starlark and host frames, the interpreter's loop head (Steps++, Steps >= maxSteps -> OnMaxSteps/Cancel, cancelReason test, dispatch) and Thread.Cancel (compare-and-swap) / Uncancel / the one-time maxSteps initialisation modelled as in the code, and an adversary that cancels/uncancels between any two micro-steps: with limit N >= 1 fewer than N instructions are ever dispatched over all nested calls and all schedules and a run that reaches its N-th loop head cannot succeed (ends with the cancellation error when host code propagates errors); once cancelled no instruction is dispatched beyond the single one whose cancellation test had already passed; the reason reported is the first Cancel since the last Uncancel over every history; an execution started while cancelled stops at its first loop head; step counts are independent of the limit and of the counter's start; every execution under a finite limit terminates if built-ins do. Dynamic extension (C07.ModelDyn: host code inside a built-in may call SetMaxExecutionSteps(n) -- a plain store, also for 0 -- and add to the exported Steps counter, uint64 wrap explicit; loop head unchanged): at every dispatch Steps < the limit most recently installed, for the default behaviour and for every cancelling OnMaxSteps hook; after SetMaxExecutionSteps(n) in a built-in at most max(0, n-1-Steps) further instructions are dispatched whatever frames are active, after a charge past the limit none; without the new actions the dynamic machine is the static one; termination when raises of the limit are bounded or finitely many. Tied to /repo on every run: real programs (terminating and not) are measured, run under every limit N, with Cancel/Uncancel scripts injected from inside each built-in call (same or another goroutine), scripted Cancel/Uncancel/re-execute lives and asynchronous cancellation; model and specification are evaluated in Coq on a sample of those runs and a Go oracle checks all of them. The limit is also installed / lowered from inside the k-th built-in call, steps are charged past the limit (default and hook), and threads are re-used with a limit below their count: the Go oracle checks all of these runs, a sample is evaluated against the dynamic Coq machine (model_ok) and an arithmetic specification (spec_ok, C07.SpecDyn).",
     "note": "Trusted: Coq kernel + vm_compute; the harness; sync/atomic as the oracle for Cancel's compare-and-swap; programs enter the model through their measured loop-head/built-in profile (flattened over nested calls), so opcode semantics below the loop head are abstract; the uint64 step counter is modelled with wrap-around and the theorems assume fewer than 2^64 loop heads; wall-clock promptness is not claimed.",
     "technique": "Coq proof over executable abstract machine (all programs, all schedules) + differential correspondence (vm_compute) + Spec.v oracle + Go oracle over every limit",
 }
 HEADER = """From Coq Require Import NArith Bool List.
-From SV Require Import C07.Model C07.Spec.
+From SV Require Import C07.Model C07.Spec C07.ModelDyn C07.SpecDyn.
 Import ListNotations.
 Open Scope N_scope.
 Inductive case :=
 | CRun (limit : N) (prog : list sinstr) (o : sobs)
 | CAdv (limit : N) (prog : list sinstr) (pre : N) (ops : list sop) (o : sobs)
-| CLife (limit : N) (fuel : N) (hook : option reason) (evs : list lev) (obs : list sobs).
+| CLife (limit : N) (fuel : N) (hook : option reason) (evs : list lev) (obs : list sobs)
+| CDyn (hook : option reason) (l0 : N) (pr : profile) (k : nat) (a : dact) (o : sobs)
+| CReuse (hook : option reason) (lim st0 : N) (pr : profile) (o : sobs).
 Definition res_of (r : option err) : sres :=
   match r with None => ROk | Some (ECancel x) => RCancelled x | Some (EOther _) => RErr end.
 Fixpoint size (p : list sinstr) : N :=
@@ -64,6 +66,15 @@ Fixpoint hobs_list (l : list hobs) : list sobs :=
   | OStuck _ :: rest => mkObs RDiverge 0 0 :: hobs_list rest
   end.
 Definition eff (limit : N) := if limit =? 0 then max_uint64 else limit.
+(* ModelDyn: the limit changes / steps are charged while the program runs *)
+Definition dfuel (pr : profile) : nat := N.to_nat (3 * p_t pr + 4 * N.of_nat (length (p_idx pr)) + 40).
+Definition hook_of (hook : option reason) := match hook with Some r => Some (cancel_hook r) | None => None end.
+Definition lr_of (hook : option reason) := match hook with Some r => r | None => too_many_steps end.
+Definition dyn_ok (t0 : thread) (pr : profile) (plan : nat -> list dop) (o : sobs) : bool :=
+  match dyn_run t0 (script_of pr plan) (dfuel pr) with
+  | Some (r, s, n) => sobs_eqb (mkObs (res_of r) s n) o
+  | None => false
+  end.
 Definition model_ok (c : case) : bool :=
   match c with
   | CRun limit p o =>
@@ -78,6 +89,10 @@ Definition model_ok (c : case) : bool :=
       let t0 := match hook with Some r => set_onmax t0 (Some (cancel_hook r)) | None => t0 end in
       let (t, l) := life sstate s_dispatch s_host true (fun _ => false) t0 (map (to_hev fuel) evs) in
       list_eqb sobs_eqb (hobs_list l) obs
+  | CDyn hook l0 pr k a o =>
+      dyn_ok (set_onmax (set_max_execution_steps new_thread l0) (hook_of hook)) pr (plan1 k [dop_of a]) o
+  | CReuse hook lim st0 pr o =>
+      dyn_ok (mkThread st0 lim None true (hook_of hook)) pr (fun _ => []) o
   end.
 Definition spec_ok (c : case) : bool :=
   match c with
@@ -86,6 +101,8 @@ Definition spec_ok (c : case) : bool :=
   | CAdv limit p pre ops o => true   (* rewritten by the check as a CRun with the ops inside the built-in *)
   | CLife limit _ hook evs obs =>
       list_eqb sobs_eqb (spec_life (match hook with Some r => r | None => too_many_steps end) limit false evs [] 0) obs
+  | CDyn hook l0 pr k a o => sobs_matches (spec_dyn (lr_of hook) l0 pr k a) o
+  | CReuse hook lim st0 pr o => sobs_matches (spec_reuse (lr_of hook) lim st0 pr) o
   end.
 """
 
@@ -118,6 +135,20 @@ def script(shape, plan):
             items.append("SPlain %d" % tail)
         items.append("SLoop")
     return "[" + "; ".join(items) + "]"
+
+
+def profile(shape):
+    """The measured profile as a C07.ModelDyn.profile."""
+    end = {"ok": "EOk", "err": "EErr"}.get(shape["end"], "EInf")
+    return "(mkProf %d [%s] %s)" % (shape["t"], "; ".join(str(i) for i in shape.get("idx") or []), end)
+
+
+def stride_sample(items, want):
+    """About `want` items, evenly spread, always the same ones for the same list."""
+    if len(items) <= want:
+        return list(items)
+    step = len(items) / float(want)
+    return [items[int(i * step)] for i in range(want)]
 
 
 def obs(o):
@@ -204,11 +235,37 @@ def run(ctx):
             fuel = 3 * (maxlim + maxt) + 60
             terms.append("(CLife %d %d %s [%s] [%s])" % (l["n"], fuel, "(Some 4)" if l.get("hook") else "None", "; ".join(evs), "; ".join(ob)))
             refs.append(l)
+    # The limit changes / steps are charged WHILE the program runs (C07.ModelDyn, C07.SpecDyn): every such
+    # observation is checked by the Go oracle above; a sample is evaluated against the dynamic Coq machine and
+    # against the arithmetic specification.
+    dyn_setmax, dyn_charge, dyn_reuse = [], [], []
+    for l in lines:
+        if l["kind"] == "setmax-in-builtin" and l.get("obs") and l["prog"] in shapes:
+            sh = shapes[l["prog"]]
+            start = l.get("start", 0)
+            if sh["end"] == "inf" and not (l["n"] <= sh["t"] and 0 < start <= sh["t"]):
+                dist["dyn:beyond-measured-prefix"] = dist.get("dyn:beyond-measured-prefix", 0) + 1
+                continue
+            dyn_setmax.append((l, "(CDyn None %d %s %d (ASetMax %d) %s)" % (start, profile(sh), l["k"], l["n"], obs(l["obs"]))))
+        elif l["kind"] == "jump" and l.get("obs") and l["prog"] == "charge" and l.get("shape"):
+            dyn_charge.append((l, "(CDyn %s %d %s 1 (ACharge %d) %s)" % ("(Some 4)" if l.get("hook") else "None", l["n"], profile(l["shape"]), l["k"], obs(l["obs"]))))
+        elif l["kind"] == "jump" and l.get("obs") and l["prog"] in shapes and shapes[l["prog"]]["end"] != "inf":
+            dyn_reuse.append((l, "(CReuse %s %d %d %s %s)" % ("(Some 4)" if l.get("hook") else "None", l["n"], l.get("start", 0), profile(shapes[l["prog"]]), obs(l["obs"]))))
+    viol_first = lambda xs: [x for x in xs if x[0].get("viol")][:40]   # what the Go oracle flags is always shown to Coq too
+    for name, xs, want in (("setmax-in-builtin", dyn_setmax, 300 if ctx.quick() else 4000), ("charge", dyn_charge, 10 ** 6), ("re-used-thread", dyn_reuse, 80 if ctx.quick() else 2000)):
+        chosen = stride_sample(xs, want)
+        chosen += [x for x in viol_first(xs) if x not in chosen]
+        dist["dyn-coq:" + name] = len(chosen)
+        for l, term in chosen:
+            terms.append(term)
+            refs.append(l)
     ctx.log("harness: %d lines, %d Go-oracle violations, %d cases for Coq" % (len(lines), nviol, len(terms)))
     bad_model, bad_spec = coq_mismatches_par(ctx, "c07_cases", HEADER, terms, ["model_ok", "spec_ok"], shard=2000 if ctx.quick() else 1500, workers=6)
     for i in bad_spec:
         l = refs[i]
         key = "spec:%s" % l["kind"]
+        if l["kind"] == "jump":
+            key += (":charge" if l.get("prog") == "charge" else ":re-used-thread") + (":with-OnMaxSteps-hook" if l.get("hook") else "")
         progs = {l.get("prog")} | {e.get("prog") for e in (l.get("life") or []) if e.get("prog")}
         ctx.finding(key, "%s (%s, limit %s): observed %s is not what the specification allows" % (l["kind"], l.get("prog"), l.get("n"), l.get("obs") or "life"),
                     {"line": l, "coq_term": terms[i], "sources": {x["prog"]: x.get("src") for x in lines if x["kind"] == "shape" and x["prog"] in progs}})
@@ -218,7 +275,7 @@ def run(ctx):
     cov = {
         "evaluations": sum(v for k, v in dist.items() if not k.startswith("programs")),
         "distinct_nontrivial": len(set(terms)),
-        "rule": "programs (fixed pool incl. while True / unbounded recursion / huge ranges / sorted(key=) callbacks + seeded random structured programs) x EVERY limit N from 1 to T+2 (T measured; cap for non-terminating) checked by the Go oracle (no built-in entered at a step >= N, result = cancelled('too many steps') iff T >= N, ExecutionSteps = T otherwise, log prefix of the unlimited run); Cancel/Uncancel scripts injected from inside every built-in call k (<=12) on the interpreter goroutine and on another goroutine x 5 limits; scripted lives; asynchronous Cancel; distinct = distinct Coq terms (limit, measured profile, observation) evaluated against C07.Model and C07.Spec",
+        "rule": "programs (fixed pool incl. while True / unbounded recursion / huge ranges / sorted(key=) callbacks + seeded random structured programs) x EVERY limit N from 1 to T+2 (T measured; cap for non-terminating) checked by the Go oracle (no built-in entered at a step >= N, result = cancelled('too many steps') iff T >= N, ExecutionSteps = T otherwise, log prefix of the unlimited run); Cancel/Uncancel scripts injected from inside every built-in call k (<=12) on the interpreter goroutine and on another goroutine x 5 limits; scripted lives; asynchronous Cancel; distinct = distinct Coq terms (limit, measured profile, observation) evaluated against C07.Model and C07.Spec; setmax-in-builtin (programs x built-in call k <= 6 x new limit = Steps + {1,2,5,30} x {no limit, generous limit} before the run), charge (Steps += {1,7,1000} under limits {5,6,9,40}, default / hook) and re-used threads (limit in {1, st/2, st-1, st} below the count st, default / hook): Go oracle on all, Coq (C07.ModelDyn machine + C07.SpecDyn arithmetic specification) on an evenly spread sample of ~300/all/~80 in quick and up to 4000/all/2000 in thorough (dyn-coq:* in the distribution)",
         "samples": refs[:2] + refs[len(refs) // 2: len(refs) // 2 + 2] + refs[-1:],
         "distribution": dist, "go_oracle_violations": nviol,
         "model_mismatches": len(bad_model), "spec_mismatches": len(bad_spec),
@@ -228,4 +285,6 @@ def run(ctx):
         "fewer than 2^64 loop heads are visited in a thread's life (the counter is a uint64; the model wraps it, the theorems assume no wrap)",
         "built-ins terminate (hypothesis of terminates_under_budget); host code that receives a cancellation error propagates it (hypothesis of the error-class part of budget_respected)",
         "sync/atomic CompareAndSwap/Load/Store are linearizable (Cancel/Uncancel from other goroutines are modelled as atomic ticks between micro-steps)",
+        "SetMaxExecutionSteps and Steps are used by host code on the interpreter's goroutine only (they are not documented as safe from other goroutines; the adversary of the model only Cancels / Uncancels); the counting parts of the dynamic theorems assume loop heads + charges stay below 2^64 (the at-every-dispatch invariant does not)",
+        "terminates_under_dynamic_budget: built-ins terminate (measure decreased by every host step incl. SetMaxExecutionSteps / charges) and raises of the limit are bounded by some B or paid from a finite credit (raises_limited)",
     ])
